@@ -193,31 +193,40 @@ def _run_map(case):
         res = probdiffeq.residual_velocity(lambda u, du, *, t: Jj @ jnp.concatenate([u, du]) + bj + eps * u * du * (1 + t), jacobian=probdiffeq.jacobian_materialize())
         tcs = [jnp.asarray(_tab((d,), 20 + i)) for i in range(q + 1)]
         prior = ssm.prior_wiener_integrated(tcs, is_exact=False, inexact_eps=0.5)
-        rv = prior.init
-        for tp_name, tp in (("prior", None), ("map", probdiffeq.taylor_point_maximum_a_posteriori())):
-            con = ssm.constraint_residual(res, taylor_point=tp)
-            cond, _ = con.linearize(rv, con.init_linearization(), damp=0.0, t=0.5)
-            zeros = [jnp.zeros((d,))]
-            post = cond.bayes_rule_tree(zeros, rv, solve_triu=linalg.solve_triu)
-            ntr += 1
-            pm = np.asarray(post.mean_flat)
-            val = np.asarray(Jj @ jnp.asarray(pm[: 2 * d]) + bj + eps * pm[:d] * pm[d:2 * d] * 1.5)
-            if eps == 0.0:
-                # exact Gaussian conditioning on the affine constraint
+        # two kinds of distributions: the (diagonal-factor) initial one, and one after a prior transition, whose Cholesky factor is a
+        # genuine non-symmetric triangular matrix
+        rvs = {"initial": prior.init, "propagated": prior.transition(dt=0.25, output_scale=jnp.asarray(1.0)).marginalise(prior.init)}
+        for rv_name, rv in rvs.items():
+            for tp_name, tp in (("prior", None), ("map", probdiffeq.taylor_point_maximum_a_posteriori())):
+                con = ssm.constraint_residual(res, taylor_point=tp)
+                cond, _ = con.linearize(rv, con.init_linearization(), damp=0.0, t=0.5)
+                zeros = [jnp.zeros((d,))]
+                post = cond.bayes_rule_tree(zeros, rv, solve_triu=linalg.solve_triu)
+                ntr += 1
+                pm = np.asarray(post.mean_flat)
+                val = np.asarray(Jj @ jnp.asarray(pm[: 2 * d]) + bj + eps * pm[:d] * pm[d:2 * d] * 1.5)
                 fac = C08.Factory("dense", q + 1, d)
                 m0, P0 = fac.dense_rv(rv)
-                H = np.zeros((d, n))
-                H[:, : 2 * d] = Jm
-                Hm, Pm = gauss.M(H), gauss.M(P0)
-                S = Hm @ Pm @ Hm.T
-                want = gauss.M(m0) - Pm @ Hm.T @ gauss.solve(S, Hm @ gauss.M(m0) + gauss.M(bv))
-                want = np.array([float(v) for v in want])
-                if not np.allclose(pm, want, rtol=1e-9, atol=1e-11):
-                    fails.append(core.fail("affine_update_not_exact", f"taylor_point={tp_name}: {pm} vs {want}"))
-            elif tp_name == "map":
-                # with the MAP linearisation point the updated mean satisfies the nonlinear constraint (to the routine's tolerance)
-                if not np.max(np.abs(val)) <= 1e-5:
-                    fails.append(core.fail("map_update_violates_constraint", f"residual at updated mean {val}"))
+                if eps == 0.0:
+                    # exact Gaussian conditioning on the affine constraint
+                    H = np.zeros((d, n))
+                    H[:, : 2 * d] = Jm
+                    Hm, Pm = gauss.M(H), gauss.M(P0)
+                    S = Hm @ Pm @ Hm.T
+                    want = gauss.M(m0) - Pm @ Hm.T @ gauss.solve(S, Hm @ gauss.M(m0) + gauss.M(bv))
+                    want = np.array([float(v) for v in want])
+                    if not np.allclose(pm, want, rtol=1e-9, atol=1e-11):
+                        fails.append(core.fail("affine_update_not_exact", f"taylor_point={tp_name} rv={rv_name}: {pm} vs {want}"))
+                    if tp is not None:
+                        # the MAP point itself is the conditional mean
+                        cf = con.constraint_flat(tree_flatten=rv.tree_flatten)
+                        xi = np.asarray(tp(cf, rv, t=0.5))
+                        if not np.allclose(xi, want, rtol=1e-9, atol=1e-11):
+                            fails.append(core.fail("map_point_not_conditional_mean", f"rv={rv_name}: {xi} vs {want}"))
+                elif tp_name == "map":
+                    # with the MAP linearisation point the updated mean satisfies the nonlinear constraint (to the routine's tolerance)
+                    if not np.max(np.abs(val)) <= 1e-5:
+                        fails.append(core.fail("map_update_violates_constraint", f"rv={rv_name}: residual at updated mean {val}"))
     seen = {}
     for f in fails:
         seen.setdefault(f["kind"], f)
